@@ -36,7 +36,36 @@ def sameData16 (a b : NodeData) : Bool :=
   a.productionId == b.productionId && a.firstLeafSymbol == b.firstLeafSymbol &&
   a.padding.extent.row == b.padding.extent.row && a.size.extent.row == b.size.extent.row
 
+mutual
+  /-- The tree as the node API shows it, up to aliases: preorder list of the nodes whose symbol is
+  visible, with their byte and point ranges, flags and parse state.  Hidden nodes (e.g. the auxiliary
+  repeat nodes that `ts_parser__balance_subtree` rotates) do not appear. -/
+  def visibleList (t : Tree) (off : Length) : List (Nat × Length × Length × Bool × Bool × Bool × Nat) :=
+    match t with
+    | .mk d kids =>
+      let s := length_add off d.padding
+      let e := length_add s d.size
+      let rest := visibleKids kids off
+      if d.visible then (d.symbol, s, e, d.named, d.extra, d.isMissing, d.parseState) :: rest else rest
+  def visibleKids (ks : List Tree) (off : Length) : List (Nat × Length × Length × Bool × Bool × Bool × Nat) :=
+    match ks with
+    | [] => []
+    | k :: rest => visibleList k off ++ visibleKids rest (length_add off k.totalSize)
+end
+
 def mapOff (m : List (Nat × Nat)) (p : Nat) : Option Nat := (m.find? (·.1 == p)).map (·.2)
+
+mutual
+  /-- Equal in everything but the parse states recorded in the nodes (`parse_state`, `first_leaf.parse_state`)? -/
+  def sameModuloStates : Tree → Tree → Bool
+    | .mk da ka, .mk db kb =>
+      sameData { da with parseState := 0, firstLeafState := 0 } { db with parseState := 0, firstLeafState := 0 } &&
+      sameModuloStatesL ka kb
+  def sameModuloStatesL : List Tree → List Tree → Bool
+    | [], [] => true
+    | a :: ra, b :: rb => sameModuloStates a b && sameModuloStatesL ra rb
+    | _, _ => false
+end
 
 mutual
   /-- First difference between the canonical tree `a` and the drive's tree `b`;
